@@ -271,6 +271,10 @@ class PitRun:
         elif a == 'Shutdown':
             self.app.shutdown()
             loop.settle(timers_now=False)
+        elif a == 'Connect':
+            # main_loop again on the same application object (the previous call has returned)
+            self.main = self.sess.spawn(self.app.main_loop())
+            loop.settle(timers_now=False)
         else:
             raise ValueError(a)
 
